@@ -13,6 +13,7 @@ package eng
 
 import (
 	"fmt"
+	"strings"
 	"go/constant"
 	"go/token"
 	"go/types"
@@ -28,6 +29,41 @@ type ConstEvaluator struct {
 	// Override replaces the result of a function of the package by fixed constants (to read a table "as if" an
 	// inner table had returned a given row).
 	Override map[*ssa.Function][]constant.Value
+	// ptrs: addresses inside package-level tables that travel through calls and returns are encoded as string constants
+	// "\x00ptr:<n>" that index this list
+	ptrs []ptrVal
+}
+
+type ptrVal struct {
+	g    *ssa.Global
+	path string
+}
+
+const ptrPrefix = "\x00ptr:"
+
+func (ce *ConstEvaluator) ptrConst(g *ssa.Global, path string) constant.Value {
+	for i, p := range ce.ptrs {
+		if p.g == g && p.path == path {
+			return constant.MakeString(fmt.Sprintf("%s%d", ptrPrefix, i))
+		}
+	}
+	ce.ptrs = append(ce.ptrs, ptrVal{g, path})
+	return constant.MakeString(fmt.Sprintf("%s%d", ptrPrefix, len(ce.ptrs)-1))
+}
+
+func (ce *ConstEvaluator) asPtr(c constant.Value) (ptrVal, bool) {
+	if c == nil || c.Kind() != constant.String {
+		return ptrVal{}, false
+	}
+	sv := constant.StringVal(c)
+	if !strings.HasPrefix(sv, ptrPrefix) {
+		return ptrVal{}, false
+	}
+	var i int
+	if _, err := fmt.Sscanf(strings.TrimPrefix(sv, ptrPrefix), "%d", &i); err != nil || i < 0 || i >= len(ce.ptrs) {
+		return ptrVal{}, false
+	}
+	return ce.ptrs[i], true
 }
 
 func NewConstEvaluator() *ConstEvaluator {
@@ -160,6 +196,13 @@ func (ce *ConstEvaluator) eval(fn *ssa.Function, args []constant.Value, depth in
 			case *ssa.ChangeType:
 				if c, ok := get(x.X); ok {
 					env[x] = c
+				}
+			case *ssa.IndexAddr, *ssa.FieldAddr:
+				// an address inside a package-level table (it may be returned or passed on)
+				if g, path, ok := ce.addrPath(x.(ssa.Value), get); ok && path != "" {
+					if _, err := ce.globalCells(g); err == nil {
+						env[x.(ssa.Value)] = ce.ptrConst(g, path)
+					}
 				}
 			case *ssa.Lookup:
 				// m[k] on a package-level map that is only ever assigned its literal
@@ -366,6 +409,15 @@ func (ce *ConstEvaluator) mapLiteral(g *ssa.Global) (map[string]constant.Value, 
 // addrPath resolves an address below a package-level variable: constant (or, with get, propagated) indices and
 // field numbers.
 func (ce *ConstEvaluator) addrPath(v ssa.Value, get func(ssa.Value) (constant.Value, bool)) (*ssa.Global, string, bool) {
+	if get != nil {
+		if _, isG := v.(*ssa.Global); !isG {
+			if c, ok := get(v); ok {
+				if pv, isP := ce.asPtr(c); isP {
+					return pv.g, pv.path, true
+				}
+			}
+		}
+	}
 	switch x := v.(type) {
 	case *ssa.Global:
 		return x, "", true
@@ -434,6 +486,8 @@ func (ce *ConstEvaluator) globalCells(g *ssa.Global) (map[string]constant.Value,
 	ce.cells[g] = nil
 	tab := map[string]constant.Value{}
 	initFn := g.Pkg.Func("init")
+	seenRet := map[*ssa.Function]bool{}
+	seenAddr := map[ssa.Value]bool{}
 	var walk func(addr ssa.Value) error
 	walk = func(addr ssa.Value) error {
 		refs := addr.Referrers()
@@ -481,6 +535,37 @@ func (ce *ConstEvaluator) globalCells(g *ssa.Global) (map[string]constant.Value,
 					tab[path] = nil
 				}
 			case *ssa.DebugRef:
+			case *ssa.Phi:
+				if !seenAddr[x] {
+					seenAddr[x] = true
+					if err := walk(x); err != nil {
+						return err
+					}
+				}
+			case *ssa.Return:
+				// the address is handed to the callers of an unexported function of the package: they must use it the
+				// same way
+				f := x.Parent()
+				if f.Object() == nil || f.Object().Exported() || seenRet[f] {
+					if seenRet[f] {
+						continue
+					}
+					return fmt.Errorf("variable %s: its address is returned by %s", g.Name(), f.Name())
+				}
+				seenRet[f] = true
+				sites, esc := CallSitesOf(f)
+				if esc {
+					return fmt.Errorf("variable %s: its address is returned by %s, which is used as a value", g.Name(), f.Name())
+				}
+				for _, cs := range sites {
+					if cv, ok := cs.(*ssa.Call); ok {
+						if err := walk(cv); err != nil {
+							return err
+						}
+					} else {
+						return fmt.Errorf("variable %s: its address is returned by %s to a go/defer statement", g.Name(), f.Name())
+					}
+				}
 			default:
 				return fmt.Errorf("variable %s: its address escapes in %s", g.Name(), r.Parent().Name())
 			}
